@@ -29,7 +29,7 @@ CONSTANTS VALS,      \* validator operators, e.g. {"o1","o2"}
 VARIABLES stake, pend, jailed, tomb, blocks, halted, hist
 vars == <<stake, pend, jailed, tomb, blocks, halted, hist>>
 
-Classes == {"one", "mid", "big", "huge"}
+Classes == {"one", "mid", "big", "vast", "huge"}
 
 Init ==
   /\ stake = [o \in VALS |-> "gen"]
